@@ -24,7 +24,7 @@ import (
 func init() {
 	Registry["C13"] = &Check{
 		Scenarios: c13Scenarios,
-		Rule: "client side: MaxRetransmits R in {0,1,2}, WatchdogInterval 3 s, RetransmitInterval 1 s on the virtual clock; the peer's reaction to the n-th DWR transmission is scripted from {success DWA after 0, 1/2 or 1 interval (1 = exact tie with the retransmission timer), DWA 5012 at once, silence}, scripts with other non-success answers (1001, 3004, a DWA without Result-Code) and with a peer that leaves a DWR unanswered but sends a DWR of its own at that instant, plus five burst scripts with answers delayed by 3/2 and 5/2 intervals (several late answers landing inside one later waiting window); all scripts of length <=2 (thorough 3), silence afterwards, so every run ends with the watchdog closing the connection; every schedule of watchdog thread, reader, timers and peer up to preemption bound 2 (thorough: unbounded for scripts of length <=1); peer steps and due timers are free transitions, so every ordering of answer / timer / reader is explored already at bound 0. Oracle: the observed (time, hop-by-hop id) sequence of DWRs and the close time must be one of the timelines of a reference model (branching only at exact ties). Redial: the peer of a first connection leaves the first DWR unanswered and disconnects 0 or 1/2 interval later, the application redials at once with the same Client, and the second connection (peer answers two DWRs, then silence) must show the model's timeline measured from its own handshake (R in {0,1}). A handshake that takes longer than WatchdogInterval (the peer answers only the retransmitted CER): no DWR before the CEA, the first one interval after it. Two live connections of one Client (dialled one after the other, both peers answer every DWR): neither is closed and each sees one DWR per interval. A client with the watchdog enabled answers a DWR its handshaken peer sends (between rounds and at the instant of its own DWR). Server side: one state machine serves 40 peers one after the other (handshake, DWR, disconnect each); for every DWR from a handshaken peer over {both identity AVPs, Origin-Host missing, Origin-Realm missing, with Origin-State-Id, Origin-Host in another letter case, another Origin-Host} x ids {0,1,2^31,2^32-1}^2 the state machine must answer a success DWA with the local identity and the request's ids.",
+		Rule: "client side: MaxRetransmits R in {0,1,2}, WatchdogInterval 3 s, RetransmitInterval 1 s on the virtual clock; the peer's reaction to the n-th DWR transmission is scripted from {success DWA after 0, 1/2 or 1 interval (1 = exact tie with the retransmission timer), DWA 5012 at once, silence}, server side: every sequence of <=3 DWRs over {fresh identifiers, the previous identifiers again, the same with the T flag, fresh with the T flag, the same with the P flag, zero identifiers with T} is answered DWR by DWR; scripts with other non-success answers (1001, 3004, a DWA without Result-Code) and with a peer that leaves a DWR unanswered but sends a DWR of its own at that instant, plus five burst scripts with answers delayed by 3/2 and 5/2 intervals (several late answers landing inside one later waiting window); all scripts of length <=2 (thorough 3), silence afterwards, so every run ends with the watchdog closing the connection; every schedule of watchdog thread, reader, timers and peer up to preemption bound 2 (thorough: unbounded for scripts of length <=1); peer steps and due timers are free transitions, so every ordering of answer / timer / reader is explored already at bound 0. Oracle: the observed (time, hop-by-hop id) sequence of DWRs and the close time must be one of the timelines of a reference model (branching only at exact ties). Redial: the peer of a first connection leaves the first DWR unanswered and disconnects 0 or 1/2 interval later, the application redials at once with the same Client, and the second connection (peer answers two DWRs, then silence) must show the model's timeline measured from its own handshake (R in {0,1}). A handshake that takes longer than WatchdogInterval (the peer answers only the retransmitted CER): no DWR before the CEA, the first one interval after it. Two live connections of one Client (dialled one after the other, both peers answer every DWR): neither is closed and each sees one DWR per interval. A client with the watchdog enabled answers a DWR its handshaken peer sends (between rounds and at the instant of its own DWR). Server side: one state machine serves 40 peers one after the other (handshake, DWR, disconnect each); for every DWR from a handshaken peer over {both identity AVPs, Origin-Host missing, Origin-Realm missing, with Origin-State-Id, Origin-Host in another letter case, another Origin-Host} x ids {0,1,2^31,2^32-1}^2 the state machine must answer a success DWA with the local identity and the request's ids.",
 		Assume: []string{"virtual time: writes and computation take no time", "data-race freedom between visible operations (audited separately with -race)"},
 		QuickBudget: 150, ThoroughBudget: 2400,
 	}
@@ -124,6 +124,7 @@ func c13Scenarios(tier string) []*Scenario {
 		out = append(out, c13PeerDWR(at, bound))
 	}
 	out = append(out, &Scenario{Name: "server/dwr-grid", Seq: c13Server})
+	out = append(out, &Scenario{Name: "server/dwr-sequences", Seq: c13ServerSeqs})
 	out = append(out, &Scenario{Name: "server/many-sequential-peers", Seq: c13ManyPeers})
 	return out
 }
@@ -516,6 +517,102 @@ func c13Server(r *SeqResult) {
 					r.Case = map[string]interface{}{"shape": shape, "hbh": hb, "e2e": ee}
 				}
 			}
+		}
+	}
+}
+
+// c13ServerSeqs: a handshaken peer sends SEQUENCES of DWRs - fresh identifiers, the identifiers
+// of the previous DWR again (a retransmission), with and without the T (potentially
+// retransmitted) flag, with the P flag: every one of them is a well-formed DWR and gets its DWA.
+func c13ServerSeqs(r *SeqResult) {
+	kinds := []string{"fresh", "same", "same+T", "fresh+T", "same+P", "zero-ids+T"}
+	var seqs [][]string
+	var rec func(cur []string)
+	rec = func(cur []string) {
+		if len(cur) > 0 {
+			seqs = append(seqs, append([]string{}, cur...))
+		}
+		if len(cur) == 3 {
+			return
+		}
+		for _, k := range kinds {
+			rec(append(cur, k))
+		}
+	}
+	rec(nil)
+	for _, sq := range seqs {
+		sq := sq
+		verdict := ""
+		stage := "the handshake"
+		done := false
+		s := vs.Run(nil, false, 0, false, func() {
+			conn := vnet.NewConn("S")
+			conn.Pieces = 1
+			settings := &sm.Settings{OriginHost: "srv", OriginRealm: "realm", VendorID: 13, ProductName: "prod",
+				HostIPAddresses: []datatype.Address{datatype.Address(net.ParseIP("10.0.0.1"))}}
+			mach := sm.New(settings)
+			if _, err := diam.NewConn(conn, "peer", mach, dict.Default); err != nil {
+				return
+			}
+			p := &Peer{C: conn}
+			conn.Deliver(refcodec.EncodeMessage(refcodec.Header{Version: 1, Flags: 0x80, Code: 257, HbH: 5, E2E: 6}, []refcodec.Node{
+				ident(264, "cli"), ident(296, "test"), {Code: 257, Flags: 0x40, Payload: refcodec.Address(1, []byte{10, 0, 0, 9})},
+				u32avp(266, 13), {Code: 269, Payload: []byte("x")}, u32avp(258, 4)}))
+			if cea := p.Next(); cea == nil {
+				verdict = "handshake failed"
+				return
+			}
+			hb, ee := uint32(100), uint32(200)
+			for i, k := range sq {
+				flags := uint8(0x80)
+				switch k {
+				case "fresh":
+					hb, ee = hb+1, ee+1
+				case "fresh+T":
+					hb, ee = hb+1, ee+1
+					flags |= 0x10
+				case "same+T":
+					flags |= 0x10
+				case "same+P":
+					flags |= 0x40
+				case "zero-ids+T":
+					hb, ee = 0, 0
+					flags |= 0x10
+				}
+				conn.Deliver(refcodec.EncodeMessage(refcodec.Header{Version: 1, Flags: flags, Code: 280, HbH: hb, E2E: ee}, []refcodec.Node{ident(264, "cli"), ident(296, "test")}))
+				stage = fmt.Sprintf("DWR %d of the sequence (%s, flags %#x, ids %#x/%#x)", i+1, k, flags, hb, ee)
+				dwa := p.Next() // waits for the answer (for ever, if none comes: the run then ends here)
+				switch {
+				case dwa == nil:
+					verdict = fmt.Sprintf("DWR %d of the sequence (%s, flags %#x, ids %#x/%#x) was not answered", i+1, k, flags, hb, ee)
+				case dwa.Hdr.Code != 280 || dwa.Hdr.Flags&0x80 != 0 || dwa.Hdr.HbH != hb || dwa.Hdr.E2E != ee:
+					verdict = fmt.Sprintf("DWR %d (%s): the answer {code %d flags %#x ids %#x/%#x} does not mirror it", i+1, k, dwa.Hdr.Code, dwa.Hdr.Flags, dwa.Hdr.HbH, dwa.Hdr.E2E)
+				case dwa.Find(268) == nil || be32(dwa.Find(268).Payload) != 2001:
+					verdict = fmt.Sprintf("DWR %d (%s): the DWA is not a success answer", i+1, k)
+				case dwa.Find(264) == nil || string(dwa.Find(264).Payload) != "srv":
+					verdict = fmt.Sprintf("DWR %d (%s): the DWA does not carry the local identity", i+1, k)
+				}
+				if verdict != "" {
+					return
+				}
+			}
+			if conn.Closed {
+				verdict = "the connection was closed"
+			}
+			done = true
+		})
+		s.Teardown()
+		if !done && verdict == "" {
+			verdict = stage + " was never answered"
+		}
+		r.Cases++
+		r.Distinct++
+		if r.Sample == "" && len(sq) == 3 {
+			r.Sample = fmt.Sprintf("DWR sequence %v from a handshaken peer", sq)
+		}
+		if verdict != "" && r.Violation == "" {
+			r.Violation = fmt.Sprintf("state machine, DWR sequence %v from a handshaken peer: %s", sq, verdict)
+			r.Case = map[string]interface{}{"sequence": sq}
 		}
 	}
 }
